@@ -6,9 +6,34 @@
 -/
 import CTM.Drive.Util
 import CTM.Drive.Tree
+import CTM.Drive.Sparse
+import CTM.Drive.Election
+import CTM.Drive.LevelLoop
+import CTM.Drive.Markers
+import CTM.Drive.Stats
+import CTM.Drive.Validate
+import CTM.Drive.RefMarkers
+import CTM.Drive.Selection
+import CTM.Drive.Procs
+import CTM.Drive.Scratch
+import CTM.Drive.Sanitize
+import CTM.Drive.Output
 open Lean CTM.Drive
 
-def handlers : List Handler := [CTM.Drive.Tree.handle]
+def handlers : List Handler := [
+  CTM.Drive.Tree.handle,
+  CTM.Drive.Sparse.handle,
+  CTM.Drive.Election.handle,
+  CTM.Drive.LevelLoop.handle,
+  CTM.Drive.Markers.handle,
+  CTM.Drive.Stats.handle,
+  CTM.Drive.Validate.handle,
+  CTM.Drive.RefMarkers.handle,
+  CTM.Drive.Selection.handle,
+  CTM.Drive.Procs.handle,
+  CTM.Drive.Scratch.handle,
+  CTM.Drive.Sanitize.handle,
+  CTM.Drive.Output.handle]
 
 def dispatch (op : String) (inp : Json) : R Json :=
   let rec go : List Handler → R Json
